@@ -601,7 +601,21 @@ pub fn shrink_c16(scv: &Value) -> Vec<Value> {
 }
 
 pub fn checks() -> Vec<CheckDef> {
-    vec![CheckDef {
+    vec![
+    CheckDef {
+        id: "C17",
+        level: "exploration",
+        runs_quick: 1_500,
+        runs_thorough: 300_000,
+        rule: "2-8 Replicas, each over its own SqliteStorage handle (own actor thread and connection) on the same directory, run scripts of commits (operations built through the TaskData API from reads made in earlier transactions), undo, working-set rebuilds and reads; every storage call of every handle is a scheduling point of the seeded scheduler, which also issues BEGINs while another handle holds the write lock (the BEGIN then really blocks in SQLite's busy handler until the holder is scheduled through its commit; never two waiters). Audit through a fresh handle: the stored operation log equals the concatenation of the successful commits in the order their storage commits returned, an undo only succeeded on the then most recent operations, the stored tasks equal the one-at-a-time application of those commits, no working-set entry is duplicated. Non-trivial: commits of different handles alternated; distinct = distinct trace hash.",
+        gen: gen_c17,
+        run: run_c17,
+        shrink: shrink_c17,
+        real: &["taskchampion::Replica", "taskdb::*", "storage::sqlite", "storage::send_wrapper (one actor thread per handle)", "rusqlite + bundled SQLite file locking on tmpfs"],
+        stub: &[],
+        assumptions: &["handles are futures in one process, each with its own connection and thread; multi-process access is not exercised", "a blocked BEGIN that times out (5 s real time) makes the operation fail; the oracle then requires it to be absent, so timing can change a log but not raise an alarm"],
+    },
+    CheckDef {
         id: "C16",
         level: "exploration",
         runs_quick: 12_000,
@@ -613,5 +627,415 @@ pub fn checks() -> Vec<CheckDef> {
         real: &["storage::sqlite::{SqliteStorage, inner, schema}", "storage::send_wrapper (actor thread)", "rusqlite + bundled SQLite on tmpfs", "storage::inmemory::InMemoryStorage"],
         stub: &[],
         assumptions: &["the call sequence respects the documented storage contract (no set_working_set_item at 0 or beyond the end, remove_operation of the last unsynchronized operation or a deliberately non-matching one, no calls after commit)", "trailing empty working-set slots are not observable (both stores trim them at different moments)"],
-    }]
+    },
+    ]
+}
+
+// ================================================================================================
+// C17: concurrent handles on one SQLite replica directory
+// ================================================================================================
+
+use crate::exec::{self, begin_action, yield_point, Ctx, NodeFut, PollOutcome};
+use crate::fam_a::{build_ops, Intent};
+use crate::simstorage::SimStorage;
+use std::cell::RefCell;
+use std::rc::Rc;
+use taskchampion::{Operations, Replica};
+
+#[derive(Serialize, Deserialize, Clone, Debug, PartialEq)]
+pub enum Act17 {
+    Commit(Vec<Intent>),
+    Undo,
+    Rebuild(bool),
+    Read,
+}
+
+#[derive(Serialize, Deserialize, Clone, Debug)]
+pub struct Sc17 {
+    pub check: String,
+    pub seed: u64,
+    pub nodes: usize,
+    pub scripts: Vec<Vec<Act17>>,
+    pub sched_seed: u64,
+    /// probability (per mille) of issuing a BEGIN while another handle holds the write lock
+    pub contention: u32,
+}
+
+#[derive(Clone, Debug)]
+enum Done17 {
+    Commit { ops: Operations, ok: bool },
+    Undo { ops: Operations, result: Option<bool> },
+}
+
+struct W17 {
+    sc: Sc17,
+    dir: PathBuf,
+    /// (linearization sequence number, node, what) for every action that committed something
+    done: Vec<(Option<usize>, usize, usize, Done17)>,
+    violations: Vec<Violation>,
+    probes: BTreeMap<String, u64>,
+    log: Vec<String>,
+    want_log: bool,
+}
+
+fn my_commits(n: usize) -> Vec<usize> {
+    exec::with_ctx(|c| c.commit_log.iter().enumerate().filter(|(_, x)| **x == n).map(|(i, _)| i).collect()).unwrap_or_default()
+}
+
+fn node17(n: usize, w: Rc<RefCell<W17>>) -> NodeFut {
+    Box::pin(async move {
+        let dir = w.borrow().dir.clone();
+        let st = match SqliteStorage::new(&dir, AccessMode::ReadWrite, true).await {
+            Ok(s) => s,
+            Err(e) => {
+                w.borrow_mut().violations.push(Violation { oracle: "storage.open".into(), sig: "c17".into(), detail: format!("node {n}: {e:#}") });
+                return;
+            }
+        };
+        let mut replica = Replica::new(SimStorage::sqlite(st, true));
+        let script = w.borrow().sc.scripts[n].clone();
+        for (a, act) in script.iter().enumerate() {
+            begin_action(a);
+            let _ = yield_point("act").await;
+            let c0 = my_commits(n).len();
+            match act {
+                Act17::Commit(intents) => {
+                    let Some(ops) = build_ops(n, a, &mut replica, intents, crate::interpose::now_ns(), 0, 0).await else { continue };
+                    if ops.is_empty() {
+                        continue;
+                    }
+                    let r = replica.commit_operations(ops.clone()).await;
+                    let seq = my_commits(n).get(c0).copied();
+                    let mut wb = w.borrow_mut();
+                    if r.is_ok() != seq.is_some() {
+                        wb.violations.push(Violation { oracle: "c17.result".into(), sig: "commit".into(), detail: format!("node {n} action {a}: commit_operations returned {:?} but the storage commit {}", r.as_ref().map_err(|e| e.to_string()), if seq.is_some() { "succeeded" } else { "did not happen" }) });
+                    }
+                    if r.is_err() {
+                        *wb.probes.entry("commit.failed".into()).or_insert(0) += 1;
+                    }
+                    if wb.want_log {
+                        wb.log.push(format!("n{n} a{a} commit {} ops -> {:?} seq {:?}", ops.len(), r.as_ref().map_err(|e| e.to_string()), seq));
+                    }
+                    wb.done.push((seq, n, a, Done17::Commit { ops, ok: r.is_ok() }));
+                }
+                Act17::Undo => {
+                    let Ok(ops) = replica.get_undo_operations().await else { continue };
+                    let r = replica.commit_reversed_operations(ops.clone()).await;
+                    let seq = my_commits(n).get(c0).copied();
+                    let mut wb = w.borrow_mut();
+                    if wb.want_log {
+                        wb.log.push(format!("n{n} a{a} undo {} ops -> {:?} seq {:?}", ops.len(), r.as_ref().map_err(|e| e.to_string()), seq));
+                    }
+                    if matches!(r, Ok(true)) {
+                        *wb.probes.entry("undo.ok".into()).or_insert(0) += 1;
+                    }
+                    wb.done.push((seq, n, a, Done17::Undo { ops, result: r.ok() }));
+                }
+                Act17::Rebuild(renumber) => {
+                    let _ = replica.rebuild_working_set(*renumber).await;
+                }
+                Act17::Read => {
+                    let _ = replica.all_task_data().await;
+                    let _ = replica.working_set().await;
+                    let _ = replica.pending_task_data().await;
+                }
+            }
+        }
+    })
+}
+
+pub fn run_c17(scv: &Value, want_log: bool) -> RunResult {
+    let sc: Sc17 = match serde_json::from_value(scv.clone()) {
+        Ok(s) => s,
+        Err(e) => return RunResult { violations: vec![Violation { oracle: "harness".into(), sig: "bad-scenario".into(), detail: e.to_string() }], ..Default::default() },
+    };
+    let n = sc.nodes;
+    let dir = run_dir("c17", sc.seed);
+    let _guard = DirGuard(dir.clone());
+    exec::install(Ctx::new(n));
+    crate::interpose::set_now_ns(crate::interpose::EPOCH0 * 1_000_000_000);
+    // create the database before the handles race to do so (schema creation is not the subject)
+    let _ = block_on(async { SqliteStorage::new(&dir, AccessMode::ReadWrite, true).await.map(|_| ()) });
+    let w = Rc::new(RefCell::new(W17 { sc: sc.clone(), dir: dir.clone(), done: vec![], violations: vec![], probes: BTreeMap::new(), log: vec![], want_log }));
+    let mut nodes: Vec<Option<NodeFut>> = (0..n).map(|i| Some(node17(i, w.clone()))).collect();
+    let mut parked: Vec<Option<&'static str>> = vec![None; n];
+    let mut in_txn = vec![false; n];
+    let mut blocked: Option<usize> = None;
+    let mut rng = Rng::new(sc.sched_seed);
+    let mut steps = 0u64;
+    let mut sched_hash = Fnv::default();
+    let mut now = crate::interpose::EPOCH0 * 1_000_000_000;
+    loop {
+        let runnable: Vec<usize> = (0..n).filter(|i| nodes[*i].is_some()).collect();
+        if runnable.is_empty() {
+            break;
+        }
+        steps += 1;
+        if steps > 100_000 {
+            w.borrow_mut().violations.push(Violation { oracle: "liveness".into(), sig: "c17-steps".into(), detail: "handles did not finish within 100000 steps".into() });
+            break;
+        }
+        let holder = (0..n).find(|i| in_txn[*i]);
+        let (pick, nowait) = if let (Some(b), None) = (blocked, holder) {
+            // the lock is free again: the waiting handle goes first (two waiters would be
+            // ordered by SQLite's real-time back-off, which the simulator does not own)
+            (b, false)
+        } else {
+            let mut cand: Vec<(usize, bool)> = Vec::new();
+            for &i in &runnable {
+                if Some(i) == blocked {
+                    continue;
+                }
+                let wants_lock = parked[i] == Some("st.txn");
+                if wants_lock && holder.is_some() && holder != Some(i) {
+                    // issuing this BEGIN now will really block inside SQLite until the holder is
+                    // scheduled through the end of its transaction
+                    if blocked.is_none() && rng.below(1000) < sc.contention as u64 {
+                        cand.push((i, true));
+                    }
+                } else {
+                    cand.push((i, false));
+                }
+            }
+            if cand.is_empty() {
+                // only possible if the holder finished; fall back to anyone
+                (runnable[0], false)
+            } else {
+                cand[rng.usize_below(cand.len())]
+            }
+        };
+        sched_hash.write_u64(pick as u64);
+        now += 1_000_000_000;
+        crate::interpose::set_now_ns(now);
+        let out = if nowait { exec::step_nowait(pick, nodes[pick].as_mut().unwrap()) } else { exec::step(pick, nodes[pick].as_mut().unwrap()) };
+        if blocked == Some(pick) && !matches!(out, PollOutcome::Blocked) {
+            blocked = None;
+        }
+        match out {
+            PollOutcome::Parked(l) => {
+                parked[pick] = Some(l);
+                in_txn[pick] = !(l == "st.txn" || l == "act");
+            }
+            PollOutcome::Done => {
+                nodes[pick] = None;
+                parked[pick] = None;
+                in_txn[pick] = false;
+            }
+            PollOutcome::Blocked => {
+                blocked = Some(pick);
+                parked[pick] = Some("st.txn(blocked)");
+                *w.borrow_mut().probes.entry("begin_blocked_by_other_handle".into()).or_insert(0) += 1;
+            }
+            PollOutcome::Crashed => {
+                nodes[pick] = None;
+                in_txn[pick] = false;
+            }
+        }
+    }
+    drop(nodes);
+    // ---- audit through a fresh handle ------------------------------------------------------------
+    let ctx = exec::uninstall().unwrap();
+    let fin = block_on(async {
+        let mut st = SqliteStorage::new(&dir, AccessMode::ReadWrite, true).await?;
+        read_state(&mut st).await
+    });
+    let mut wb = w.borrow_mut();
+    match fin {
+        Err(e) => wb.violations.push(Violation { oracle: "c17.audit".into(), sig: "unreadable".into(), detail: format!("{e:#}") }),
+        Ok(fin) => {
+            // sequential model: the successful commits in the order in which they became effective
+            let mut done = wb.done.clone();
+            done.retain(|d| d.0.is_some());
+            done.sort_by_key(|d| d.0);
+            let mut tasks = TaskSet::new();
+            let mut log: Vec<Operation> = Vec::new();
+            let mut bad: Option<String> = None;
+            for (_, node, a, d) in &done {
+                match d {
+                    Done17::Commit { ops, .. } => {
+                        for op in ops {
+                            match op {
+                                Operation::Create { uuid } => {
+                                    tasks.entry(*uuid).or_default();
+                                }
+                                Operation::Delete { uuid, .. } => {
+                                    tasks.remove(uuid);
+                                }
+                                Operation::Update { uuid, property, value, .. } => {
+                                    if let Some(t) = tasks.get_mut(uuid) {
+                                        match value {
+                                            Some(v) => {
+                                                t.insert(property.clone(), v.clone());
+                                            }
+                                            None => {
+                                                t.remove(property);
+                                            }
+                                        }
+                                    }
+                                }
+                                Operation::UndoPoint => {}
+                            }
+                            log.push(op.clone());
+                        }
+                    }
+                    Done17::Undo { ops, result } => {
+                        if *result != Some(true) {
+                            bad = Some(format!("node {node} action {a}: an undo that reported {result:?} committed a transaction"));
+                            break;
+                        }
+                        if log.len() < ops.len() || log[log.len() - ops.len()..] != ops[..] {
+                            bad = Some(format!("node {node} action {a}: undo succeeded although its operations were not the most recent ones at the time it committed"));
+                            break;
+                        }
+                        for op in ops.iter().rev() {
+                            match op {
+                                Operation::Create { uuid } => {
+                                    tasks.remove(uuid);
+                                }
+                                Operation::Delete { uuid, old_task } => {
+                                    tasks.insert(*uuid, old_task.iter().map(|(k, v)| (k.clone(), v.clone())).collect());
+                                }
+                                Operation::Update { uuid, property, old_value, .. } => {
+                                    if let Some(t) = tasks.get_mut(uuid) {
+                                        match old_value {
+                                            Some(v) => {
+                                                t.insert(property.clone(), v.clone());
+                                            }
+                                            None => {
+                                                t.remove(property);
+                                            }
+                                        }
+                                    }
+                                }
+                                Operation::UndoPoint => {}
+                            }
+                            log.pop();
+                        }
+                    }
+                }
+            }
+            if let Some(b) = bad {
+                wb.violations.push(Violation { oracle: "c17.serial".into(), sig: "undo".into(), detail: b });
+            } else {
+                if fin.unsynced != log {
+                    let lost = log.iter().filter(|o| !fin.unsynced.contains(o)).count();
+                    let extra = fin.unsynced.iter().filter(|o| !log.contains(o)).count();
+                    wb.violations.push(Violation {
+                        oracle: "c17.serial".into(),
+                        sig: if lost > 0 { "operations-lost" } else if extra > 0 { "operations-extra" } else { "operations-order" }.into(),
+                        detail: format!("the stored operation log is not the concatenation of the successful commits in commit order: {} stored, {} expected ({lost} missing, {extra} unexpected)", fin.unsynced.len(), log.len()),
+                    });
+                } else if fin.tasks != tasks {
+                    wb.violations.push(Violation {
+                        oracle: "c17.serial".into(),
+                        sig: "tasks".into(),
+                        detail: format!("the stored tasks are not what the successful commits give one at a time\n  stored:   {}\n  expected: {}", model::fmt_taskset(&fin.tasks), model::fmt_taskset(&tasks)),
+                    });
+                }
+            }
+            // working set: no duplicates, position 0 empty, only existing... entries
+            let mut seen = std::collections::BTreeSet::new();
+            for (i, u) in fin.working_set.iter().enumerate() {
+                if let Some(u) = u {
+                    if i == 0 {
+                        wb.violations.push(Violation { oracle: "c17.ws".into(), sig: "index0".into(), detail: "working-set position 0 is occupied".into() });
+                    }
+                    if !seen.insert(*u) {
+                        wb.violations.push(Violation { oracle: "c17.ws".into(), sig: "duplicate".into(), detail: format!("task {} is in the working set twice", model::short(u)) });
+                    }
+                }
+            }
+        }
+    }
+    let mut trace = ctx.trace;
+    trace.write_u64(sched_hash.0);
+    let mut sh = Fnv::default();
+    sh.write_u64(wb.done.len() as u64);
+    let nontrivial = ctx.commit_log.windows(2).any(|x| x[0] != x[1]);
+    RunResult {
+        violations: wb.violations.clone(),
+        trace_hash: trace.0,
+        state_hash: sh.0 ^ trace.0,
+        fired: BTreeMap::new(),
+        probes: wb.probes.clone(),
+        points: ctx.points.iter().map(|(k, v)| (k.to_string(), *v)).collect(),
+        sim_seconds: steps as f64,
+        steps,
+        nontrivial,
+        evals: 1,
+        log: wb.log.clone(),
+    }
+}
+
+pub fn gen_c17(seed: u64, i: u64, _thorough: bool) -> Value {
+    let s = mix(seed, "C17", i);
+    let mut rng = Rng::new(s);
+    let nodes = *rng.pick(&[2usize, 2, 3, 3, 4, 5, 8]);
+    let tasks = 1 + rng.below(4) as u8;
+    let mut scripts = Vec::new();
+    let mut ts = 0i64;
+    for _ in 0..nodes {
+        let len = 1 + rng.usize_below(if nodes > 4 { 3 } else { 6 });
+        let mut sc = Vec::new();
+        for _ in 0..len {
+            sc.push(match rng.below(10) {
+                0..=5 => {
+                    let k = 1 + rng.usize_below(4);
+                    let mut ops = Vec::new();
+                    if rng.chance(1, 3) {
+                        ops.push(Intent::UndoPoint);
+                    }
+                    for _ in 0..k {
+                        let t = rng.below(tasks as u64) as u8;
+                        ts += 1;
+                        ops.push(match rng.below(10) {
+                            0..=2 => Intent::Create { t },
+                            3 => Intent::Delete { t },
+                            4..=5 => Intent::Key { t, key: "status".into(), val: Some(rng.pick(&["pending", "completed", "pending"]).to_string()), ts },
+                            _ => Intent::Set { t, p: rng.below(2) as u8, ts, big: false },
+                        });
+                    }
+                    Act17::Commit(ops)
+                }
+                6..=7 => Act17::Undo,
+                8 => Act17::Rebuild(rng.chance(1, 2)),
+                _ => Act17::Read,
+            });
+        }
+        scripts.push(sc);
+    }
+    serde_json::to_value(Sc17 { check: "C17".into(), seed: s, nodes, scripts, sched_seed: rng.next_u64(), contention: *rng.pick(&[0u32, 100, 300, 600]) }).unwrap()
+}
+
+pub fn shrink_c17(scv: &Value) -> Vec<Value> {
+    let Ok(sc) = serde_json::from_value::<Sc17>(scv.clone()) else { return vec![] };
+    let mut out = Vec::new();
+    if sc.nodes > 2 {
+        let mut c = sc.clone();
+        c.nodes -= 1;
+        c.scripts.pop();
+        out.push(c);
+    }
+    for n in 0..sc.nodes {
+        for a in 0..sc.scripts[n].len() {
+            let mut c = sc.clone();
+            c.scripts[n].remove(a);
+            out.push(c);
+            if let Act17::Commit(ops) = &sc.scripts[n][a] {
+                for k in 0..ops.len() {
+                    let mut c = sc.clone();
+                    let mut o = ops.clone();
+                    o.remove(k);
+                    c.scripts[n][a] = Act17::Commit(o);
+                    out.push(c);
+                }
+            }
+        }
+    }
+    if sc.contention != 0 {
+        let mut c = sc.clone();
+        c.contention = 0;
+        out.push(c);
+    }
+    out.into_iter().map(|s| serde_json::to_value(s).unwrap()).collect()
 }
